@@ -32,8 +32,12 @@ CONSTANTS
   DnsPort,     \* subset of Senders whose port is 53
   Allowed,     \* subset of Targets accepted by the targetIPValidator
   Fam,         \* [Senders -> {"v4","v6","zoned"}]
-  CClasses,    \* client payload size classes, subset of {"0","1","1000","max"}
-  RClasses,    \* reply size classes, subset of {"0","1","1000","fit","fit1","big"}
+  DgAlpha,     \* datagrams clients may send: set of [c, k, hdr, dst, cls]; k = 0: authenticates under no configured
+               \*   key (unknown key / truncated / garbage); hdr = FALSE: malformed address header;
+               \*   cls \in {"0","1","1000","max"} payload size class
+  RpAlpha,     \* datagrams senders may send to an association's socket: set of [s, cls],
+               \*   cls \in {"0","1","1000","fit","fit1","big"}
+  Sync,        \* TRUE: the environment acts only when the proxy is quiescent (behaviours for step-synchronous drivers)
   T, DNST,     \* configured NAT timeout, DNS timeout (17 s) in clock units
   Ticks,       \* possible clock advances
   MaxNow, MaxDg, MaxRp, MaxAssoc,   \* bounds (inside Next)
@@ -45,21 +49,22 @@ VARIABLES
   nat,                  \* natmap.keyConn: [Clients -> association id or 0]
   as,                   \* [1..MaxAssoc -> association record] (natconn + its goroutine)
   nas,                  \* associations created so far
-  h,                    \* Handle-loop goroutine: [pc, d, a, st, ptb]
+  h,                    \* Handle-loop goroutine: [pc, d, a]
   inC,                  \* listener socket receive queue (client datagrams)
   inT,                  \* [1..MaxAssoc -> receive queue of the association's socket]
   now, closing, crashed,
-  \* observations
+  \* observations - one sequence per observer / source, never a guessed cross-goroutine order
   sentC, sentS,         \* what clients / senders sent (environment history)
-  outT, outC,           \* datagrams that left the proxy towards targets / clients
-  mlog,                 \* metrics calls in call order
-  conn,                 \* calls on the outbound PacketConns in call order (observable on a fake conn):
-                        \*   [a, op \in {"dl","wr","rd","cl"}, t, dl, why, x]  x = destination / source token
-  nsalt,                \* salts issued so far
+  outT,                 \* datagrams received by targets (all sent by the Handle loop)
+  outC,                 \* [assoc -> datagrams its goroutine sent to clients]
+  mlogH,                \* metrics calls made by the Handle loop: CS, NatAdd, PktC
+  mlogG,                \* [assoc -> metrics calls of its goroutine: PktT, NatRemove]
+  conn,                 \* [assoc -> calls on its outbound PacketConn in call order (observable on a fake conn):
+                        \*   [op \in {"dl","wr","rd","cl"}, t, dl, why, x]  x = destination / source token]
   tr                    \* behaviour history for generation (hidden by VIEW)
 
 mech == <<klist, lastIP, nat, as, nas, h, inC, inT, now, closing, crashed>>
-obs  == <<sentC, sentS, outT, outC, mlog, conn, nsalt>>
+obs  == <<sentC, sentS, outT, outC, mlogH, mlogG, conn>>
 vars == <<mech, obs, tr>>
 
 Tag == 16
@@ -68,9 +73,10 @@ BufSz == 65536            \* serverUDPBufferSize
 MaxAddrLen == 19          \* udp.go:388
 HdrLen(s) == IF Fam[s] = "v4" THEN 7 ELSE 19
 Max(a, b) == IF a > b THEN a ELSE b
+Range(s) == {s[i] : i \in 1..Len(s)}
 IsDns(s) == s \in DnsPort
 NoD == [id |-> 0]
-COp(a, op, dl, why, x) == [a |-> a, op |-> op, t |-> now, dl |-> dl, why |-> why, x |-> x]
+COp(op, dl, why, x) == [op |-> op, t |-> now, dl |-> dl, why |-> why, x |-> x]
 
 \* numeric sizes of the classes
 CSz(cls, k, dst) == CASE cls = "0" -> 0 [] cls = "1" -> 1 [] cls = "1000" -> 1000
@@ -87,116 +93,132 @@ WireToClient(n, k, s) == SaltSz[k] + HdrLen(s) + n + Tag
 WireFromClient(d) == (IF d.k \in Keys THEN SaltSz[d.k] ELSE 32) + HdrLen(d.dst) + d.sz + Tag
 
 FreeAssoc == [st |-> "free", c |-> 0, key |-> 0, dl |-> -1, rd |-> -1, armed |-> TRUE, open |-> FALSE,
-              pc |-> "none", cur |-> NoD, victim |-> 0, n |-> 0, status |-> "", wire |-> 0]
+              pc |-> "none", cur |-> NoD, victim |-> 0, ns |-> 0]
 
 Init ==
   /\ klist = InitList /\ lastIP = [k \in Keys |-> 0]
   /\ nat = [c \in Clients |-> 0]
   /\ as = [a \in 1..MaxAssoc |-> FreeAssoc] /\ nas = 0
-  /\ h = [pc |-> "read", d |-> NoD, a |-> 0, st |-> "", ptb |-> 0]
+  /\ h = [pc |-> "read", d |-> NoD, a |-> 0]
   /\ inC = <<>> /\ inT = [a \in 1..MaxAssoc |-> <<>>]
   /\ now = 0 /\ closing = FALSE /\ crashed = FALSE
-  /\ sentC = <<>> /\ sentS = <<>> /\ outT = <<>> /\ outC = <<>> /\ mlog = <<>> /\ conn = <<>>
-  /\ nsalt = 0
+  /\ sentC = <<>> /\ sentS = <<>> /\ outT = <<>> /\ mlogH = <<>>
+  /\ outC = [a \in 1..MaxAssoc |-> <<>>] /\ mlogG = [a \in 1..MaxAssoc |-> <<>>] /\ conn = [a \in 1..MaxAssoc |-> <<>>]
   /\ tr = <<>>
 
-(* ------------------------------ environment ------------------------------ *)
+Expired(a) == as[a].dl # -1 /\ now >= as[a].dl
+HIdle == h.pc \in {"read", "returned"} /\ inC = <<>> /\ ~(h.pc = "read" /\ closing)
+GIdle(a) == as[a].st = "free" \/ as[a].pc \in {"done", "dead"} \/ (as[a].pc = "read" /\ inT[a] = <<>> /\ ~Expired(a))
+Quiet == HIdle /\ \A a \in 1..MaxAssoc : GIdle(a)
+EnvOK == ~Sync \/ Quiet
+
+(* ------------------------------ environment ------------------------------
+   Reduction (by hand): a datagram is handed to a goroutine only when that goroutine is idle with an empty
+   queue (sending it earlier only queues it), and the clock advances only when nothing is runnable (a step
+   that takes time is the same step taken later).  All races between the Handle loop, the association
+   goroutines (expiry, fast close) and shutdown remain. *)
 \* a client socket sends one datagram to the listener.  k = 0: encrypted under an unknown key / truncated / garbage
 ClientSend(c, k, hdr, dst, cls) ==
-  /\ ~closing /\ Len(sentC) < MaxDg
-  /\ LET d == [id |-> Len(sentC) + 1, c |-> c, k |-> k, hdr |-> hdr, dst |-> dst, sz |-> CSz(cls, k, dst), t |-> now] IN
+  /\ ~closing /\ Len(sentC) < MaxDg /\ EnvOK
+  /\ h.pc = "read" /\ inC = <<>>
+  /\ nas < MaxAssoc \/ ~(k \in Keys /\ hdr /\ dst \in Allowed)     \* bound: room for the association it may create
+  /\ LET d == [id |-> Len(sentC) + 1, c |-> c, k |-> k, hdr |-> hdr, dst |-> dst, sz |-> CSz(cls, k, dst)] IN
        /\ sentC' = Append(sentC, d)
        /\ inC' = Append(inC, d)
        /\ tr' = Append(tr, [a |-> "CDgram", c |-> c, k |-> k, hdr |-> hdr, dst |-> dst, cls |-> cls])
-  /\ UNCHANGED <<klist, lastIP, nat, as, nas, h, inT, now, closing, crashed, sentS, outT, outC, mlog, conn, nsalt>>
+  /\ UNCHANGED <<klist, lastIP, nat, as, nas, h, inT, now, closing, crashed, sentS, outT, outC, mlogH, mlogG, conn>>
 
 \* some socket s sends a datagram to the outbound socket of association a (the socket must still be bound)
 SenderSend(s, a, cls) ==
-  /\ Len(sentS) < MaxRp
-  /\ as[a].st = "used" /\ as[a].open
-  /\ LET r == [id |-> Len(sentS) + 1, src |-> s, a |-> a, sz |-> RSz(cls, as[a].key, s), t |-> now] IN
+  /\ Len(sentS) < MaxRp /\ EnvOK
+  /\ as[a].st = "used" /\ as[a].open /\ as[a].pc = "read" /\ inT[a] = <<>>
+  /\ LET r == [id |-> Len(sentS) + 1, src |-> s, a |-> a, sz |-> RSz(cls, as[a].key, s),
+               nw |-> Len(SelectSeq(outT, LAMBDA e : e.a = a))] IN     \* datagrams a target had seen from a by then
        /\ sentS' = Append(sentS, r)
        /\ inT' = [inT EXCEPT ![a] = Append(@, r)]
        /\ tr' = Append(tr, [a |-> "TReply", src |-> s, to |-> as[a].c, as |-> a, cls |-> cls])
-  /\ UNCHANGED <<klist, lastIP, nat, as, nas, h, inC, now, closing, crashed, sentC, outT, outC, mlog, conn, nsalt>>
+  /\ UNCHANGED <<klist, lastIP, nat, as, nas, h, inC, now, closing, crashed, sentC, outT, outC, mlogH, mlogG, conn>>
 
 \* the listener is closed; the kernel drops what was queued
 CloseListener ==
-  /\ ~closing
+  /\ ~closing /\ EnvOK
   /\ closing' = TRUE /\ inC' = <<>>
   /\ tr' = Append(tr, [a |-> "Shutdown"])
   /\ UNCHANGED <<klist, lastIP, nat, as, nas, h, inT, now, crashed, obs>>
 
 Tick(d) ==
-  /\ now + d <= MaxNow
+  /\ now + d <= MaxNow /\ Quiet
   /\ now' = now + d
   /\ tr' = Append(tr, [a |-> "Tick", d |-> d])
   /\ UNCHANGED <<klist, lastIP, nat, as, nas, h, inC, inT, closing, crashed, obs>>
 
-(* ------------------------ Handle loop (udp.go:132-222) ------------------------ *)
-HU == <<inT, now, closing, crashed, sentC, sentS, outC, nsalt, tr>>   \* never changed by the Handle loop
+(* ------------------------ Handle loop (udp.go:132-222) ------------------------
+   Steps that touch only goroutine-local state are merged into the next step that touches shared state
+   (they commute with everything else): ReadFrom+Get; decrypt+validate(+report on failure); WriteTo+report. *)
+HU == <<inT, now, closing, crashed, sentC, sentS, outC, mlogG, tr>>   \* never changed by the Handle loop
+HIdleRec == [pc |-> "read", d |-> NoD, a |-> 0]
+MEv(ev, a, c, key, st, x, y) == [ev |-> ev, a |-> a, c |-> c, key |-> key, st |-> st, x |-> x, y |-> y, t |-> now]
+CSEv(d, found) == MEv("CS", 0, d.c, 0, IF found THEN "true" ELSE "false", 0, 0)
+\* :213-220 AddPacketFromClient - only when there is an association
+PktCEv(d, a, st, ptb) == MEv("PktC", a, d.c, as[a].key, st, WireFromClient(d), ptb)
 
-\* :139 ReadFrom returns a datagram
-H_Recv ==
+\* :139 ReadFrom returns a datagram; :165 nm.Get under RLock
+H_RecvLookup ==
   /\ h.pc = "read" /\ inC # <<>>
-  /\ h' = [pc |-> "lookup", d |-> Head(inC), a |-> 0, st |-> "OK", ptb |-> 0]
+  /\ LET d == Head(inC) IN
+       h' = [pc |-> IF nat[d.c] = 0 THEN "trial" ELSE "decrypt", d |-> d, a |-> nat[d.c]]
   /\ inC' = Tail(inC)
-  /\ UNCHANGED <<klist, lastIP, nat, as, nas, outT, mlog, conn>> /\ UNCHANGED HU
-
-\* :165 nm.Get under RLock
-H_Lookup ==
-  /\ h.pc = "lookup"
-  /\ h' = [h EXCEPT !.a = nat[h.d.c], !.pc = IF nat[h.d.c] = 0 THEN "trial" ELSE "decrypt"]
-  /\ UNCHANGED <<klist, lastIP, nat, as, nas, inC, outT, mlog, conn>> /\ UNCHANGED HU
+  /\ UNCHANGED <<klist, lastIP, nat, as, nas, outT, mlogH, conn>> /\ UNCHANGED HU
 
 \* cipher_list.go:83-103: keys last used by this IP first, then the others, both in list order
 Snapshot(ip) == LET hit == SelectSeq(klist, LAMBDA k : ip # 0 /\ lastIP[k] = ip)
                     rest == SelectSeq(klist, LAMBDA k : ~(ip # 0 /\ lastIP[k] = ip))
                 IN hit \o rest
 \* udp.go:69 Unpack(dst = textBuf, src = cipherBuf): dst never aliases src, so a failed trial leaves the
-\* ciphertext intact for the following keys.
+\* ciphertext intact for the keys tried after it
 Intact(snap, i) == TRUE
 MoveToFront(k) == <<k>> \o SelectSeq(klist, LAMBDA x : x # k)
+\* :227-243 validatePacket: SplitAddr, ResolveUDPAddr, targetIPValidator (applied on BOTH paths)
+ValidateStatus(d) == IF ~d.hdr THEN "ERR_READ_ADDRESS" ELSE IF d.dst \notin Allowed THEN "ERR_ADDRESS" ELSE "OK"
 
-\* :171-177 findAccessKeyUDP: snapshot, trial decryption key by key, MarkUsedByClientIP; AddCipherSearch
+\* :167-182 new client address: findAccessKeyUDP (snapshot, trial decryption key by key into a separate buffer,
+\* MarkUsedByClientIP), AddCipherSearch, validatePacket.  No association exists, so nothing is reported on failure.
 H_Trial ==
   /\ h.pc = "trial"
-  /\ LET ip == IPOf[h.d.c]
+  /\ LET d == h.d
+         ip == IPOf[d.c]
          snap == Snapshot(ip)
-         found == \E i \in 1..Len(snap) : snap[i] = h.d.k /\ Intact(snap, i) IN
-       /\ mlog' = Append(mlog, [ev |-> "CS", a |-> 0, c |-> h.d.c, key |-> 0, st |-> IF found THEN "true" ELSE "false", x |-> 0, y |-> 0, t |-> now])
-       /\ IF found
-            THEN /\ klist' = MoveToFront(h.d.k)
-                 /\ lastIP' = [lastIP EXCEPT ![h.d.k] = ip]
-                 /\ h' = [h EXCEPT !.pc = "validate"]
-            ELSE /\ h' = [h EXCEPT !.pc = "report", !.st = "ERR_CIPHER"]
-                 /\ UNCHANGED <<klist, lastIP>>
+         found == \E i \in 1..Len(snap) : snap[i] = d.k /\ Intact(snap, i)
+         vs == ValidateStatus(d) IN
+       /\ mlogH' = Append(mlogH, CSEv(d, found))
+       /\ klist' = IF found THEN MoveToFront(d.k) ELSE klist
+       /\ lastIP' = IF found THEN [lastIP EXCEPT ![d.k] = ip] ELSE lastIP
+       /\ h' = IF found /\ vs = "OK" THEN [h EXCEPT !.pc = "open"] ELSE HIdleRec
   /\ UNCHANGED <<nat, as, nas, inC, outT, conn>> /\ UNCHANGED HU
 
-\* :190-197 known association: only the association's key is tried
+\* :190-202 known client address: ONLY the association's key is tried; validatePacket; failure is reported
+\* on the association with proxyTargetBytes = 0
 H_Decrypt ==
   /\ h.pc = "decrypt"
-  /\ LET ok == h.d.k = as[h.a].key IN
-       /\ mlog' = Append(mlog, [ev |-> "CS", a |-> 0, c |-> h.d.c, key |-> 0, st |-> IF ok THEN "true" ELSE "false", x |-> 0, y |-> 0, t |-> now])
-       /\ h' = IF ok THEN [h EXCEPT !.pc = "validate"] ELSE [h EXCEPT !.pc = "report", !.st = "ERR_CIPHER"]
+  /\ LET d == h.d
+         ok == d.k = as[h.a].key
+         vs == ValidateStatus(d)
+         st == IF ~ok THEN "ERR_CIPHER" ELSE vs IN
+       /\ mlogH' = Append(mlogH, CSEv(d, ok)) \o (IF st = "OK" THEN <<>> ELSE <<PktCEv(d, h.a, st, 0)>>)
+       /\ h' = IF st = "OK" THEN [h EXCEPT !.pc = "latch"] ELSE HIdleRec
   /\ UNCHANGED <<klist, lastIP, nat, as, nas, inC, outT, conn>> /\ UNCHANGED HU
-
-\* :180 / :200 validatePacket: SplitAddr, ResolveUDPAddr, targetIPValidator - on BOTH paths
-H_Validate ==
-  /\ h.pc = "validate"
-  /\ h' = IF ~h.d.hdr THEN [h EXCEPT !.pc = "report", !.st = "ERR_READ_ADDRESS"]
-          ELSE IF h.d.dst \notin Allowed THEN [h EXCEPT !.pc = "report", !.st = "ERR_ADDRESS"]
-          ELSE [h EXCEPT !.pc = IF h.a = 0 THEN "open" ELSE "latch"]
-  /\ UNCHANGED <<klist, lastIP, nat, as, nas, inC, outT, mlog, conn>> /\ UNCHANGED HU
 
 \* :184-188, :358-369 ListenPacket, AddUDPNatEntry, set under Lock, go timedCopy
 H_Open ==
   /\ h.pc = "open" /\ nas < MaxAssoc
-  /\ LET a == nas + 1 IN
+  /\ LET a == nas + 1
+         d == h.d
+         \* associations of this client whose removal has not been reported yet (must be none)
+         pending == Cardinality({b \in 1..nas : as[b].c = d.c /\ ~(\E m \in Range(mlogG[b]) : m.ev = "NatRemove")}) IN
        /\ nas' = a
-       /\ as' = [as EXCEPT ![a] = [FreeAssoc EXCEPT !.st = "used", !.c = h.d.c, !.key = h.d.k, !.open = TRUE, !.pc = "read"]]
-       /\ nat' = [nat EXCEPT ![h.d.c] = a]
-       /\ mlog' = Append(mlog, [ev |-> "NatAdd", a |-> a, c |-> h.d.c, key |-> h.d.k, st |-> "", x |-> h.d.id, y |-> 0, t |-> now])
+       /\ as' = [as EXCEPT ![a] = [FreeAssoc EXCEPT !.st = "used", !.c = d.c, !.key = d.k, !.open = TRUE, !.pc = "read"]]
+       /\ nat' = [nat EXCEPT ![d.c] = a]
+       /\ mlogH' = Append(mlogH, MEv("NatAdd", a, d.c, d.k, "", d.id, pending))
        /\ h' = [h EXCEPT !.a = a, !.pc = "latch"]
   /\ UNCHANGED <<klist, lastIP, inC, outT, conn>> /\ UNCHANGED HU
 
@@ -207,50 +229,39 @@ H_Latch ==
          keep == IsDns(h.d.dst) /\ as[a].rd = -1 IN
        /\ as' = [as EXCEPT ![a].armed = IF keep THEN @ ELSE FALSE]
        /\ h' = [h EXCEPT !.pc = "send"]
-  /\ UNCHANGED <<klist, lastIP, nat, nas, inC, outT, mlog, conn>> /\ UNCHANGED HU
+  /\ UNCHANGED <<klist, lastIP, nat, nas, inC, outT, mlogH, conn>> /\ UNCHANGED HU
 
-\* :274-284 onWrite, second half (deadline only ever moves later) + :298 WriteTo on the outbound socket
+\* :274-284 onWrite, second half (the deadline only ever moves later); :298 WriteTo on the outbound socket;
+\* :213-220 AddPacketFromClient
 H_Send ==
   /\ h.pc = "send"
   /\ LET a == h.a
-         nd == now + (IF IsDns(h.d.dst) THEN DNST ELSE T)
-         later == nd > as[a].rd IN
-       /\ as' = [as EXCEPT ![a].rd = IF later THEN nd ELSE @, ![a].dl = IF later /\ as[a].open THEN nd ELSE @]
-       /\ conn' = conn \o (IF later THEN <<COp(a, "dl", nd, "write", h.d.dst)>> ELSE <<>>)
-                       \o (IF as[a].open THEN <<COp(a, "wr", -1, "", h.d.dst)>> ELSE <<>>)
-       /\ IF as[a].open
-            THEN /\ outT' = Append(outT, [did |-> h.d.id, a |-> a, sock |-> a, dst |-> h.d.dst, sz |-> h.d.sz, p |-> h.d.id, t |-> now])
-                 /\ h' = [h EXCEPT !.pc = "report", !.ptb = h.d.sz]
-            ELSE /\ outT' = outT     \* the association died in the meantime: write on a closed socket
-                 /\ h' = [h EXCEPT !.pc = "report", !.st = "ERR_WRITE"]
-  /\ UNCHANGED <<klist, lastIP, nat, nas, inC, mlog>> /\ UNCHANGED HU
-
-\* :213-220 AddPacketFromClient only when there is an association
-H_Report ==
-  /\ h.pc = "report"
-  /\ mlog' = IF h.a # 0
-               THEN Append(mlog, [ev |-> "PktC", a |-> h.a, c |-> h.d.c, key |-> as[h.a].key, st |-> h.st,
-                                  x |-> WireFromClient(h.d), y |-> h.ptb, t |-> now])
-               ELSE mlog
-  /\ h' = [pc |-> "read", d |-> NoD, a |-> 0, st |-> "", ptb |-> 0]
-  /\ UNCHANGED <<klist, lastIP, nat, as, nas, inC, outT, conn>> /\ UNCHANGED HU
+         d == h.d
+         nd == now + (IF IsDns(d.dst) THEN DNST ELSE T)
+         later == nd > as[a].rd
+         up == as[a].open IN
+       /\ as' = [as EXCEPT ![a].rd = IF later THEN nd ELSE @, ![a].dl = IF later /\ up THEN nd ELSE @]
+       /\ conn' = [conn EXCEPT ![a] = @ \o (IF later THEN <<COp("dl", nd, "write", d.dst)>> ELSE <<>>)
+                                        \o (IF up THEN <<COp("wr", -1, "", d.dst)>> ELSE <<>>)]
+       /\ outT' = IF up THEN Append(outT, [did |-> d.id, a |-> a, sock |-> a, dst |-> d.dst, sz |-> d.sz, p |-> d.id, t |-> now])
+                  ELSE outT      \* the association was torn down in the meantime: write on a closed socket
+       /\ mlogH' = Append(mlogH, IF up THEN PktCEv(d, a, "OK", d.sz) ELSE PktCEv(d, a, "ERR_WRITE", 0))
+       /\ h' = HIdleRec
+  /\ UNCHANGED <<klist, lastIP, nat, nas, inC>> /\ UNCHANGED HU
 
 \* :140 ErrClosed -> break -> deferred nm.Close (:372-384): every entry's deadline := now, under Lock
 H_NatClose ==
   /\ h.pc = "read" /\ closing /\ inC = <<>>
   /\ LET live == {a \in 1..MaxAssoc : as[a].st = "used" /\ nat[as[a].c] = a} IN
        /\ as' = [a \in 1..MaxAssoc |-> IF a \in live /\ as[a].open THEN [as[a] EXCEPT !.dl = now] ELSE as[a]]
-       /\ conn' = conn \o [i \in 1..Cardinality(live) |->
-                    COp(CHOOSE x \in live : Cardinality({y \in live : y < x}) = i - 1, "dl", now, "close", 0)]
+       /\ conn' = [a \in 1..MaxAssoc |-> IF a \in live THEN Append(conn[a], COp("dl", now, "close", 0)) ELSE conn[a]]
   /\ h' = [h EXCEPT !.pc = "returned"]
-  /\ UNCHANGED <<klist, lastIP, nat, nas, inC, outT, mlog>> /\ UNCHANGED HU
+  /\ UNCHANGED <<klist, lastIP, nat, nas, inC, outT, mlogH>> /\ UNCHANGED HU
 
-HandleStep == H_Recv \/ H_Lookup \/ H_Trial \/ H_Decrypt \/ H_Validate \/ H_Open \/ H_Latch \/ H_Send \/ H_Report \/ H_NatClose
+HandleStep == H_RecvLookup \/ H_Trial \/ H_Decrypt \/ H_Open \/ H_Latch \/ H_Send \/ H_NatClose
 
 (* -------------- association goroutine (udp.go:362-368, 391-461) -------------- *)
-GU == <<klist, lastIP, nas, h, inC, now, closing, sentC, sentS, outT, tr>>   \* never changed by these goroutines
-
-Expired(a) == as[a].dl # -1 /\ now >= as[a].dl
+GU == <<klist, lastIP, nas, h, inC, now, closing, sentC, sentS, outT, mlogH, tr>>   \* never changed by these goroutines
 
 \* :413 ReadFrom returns a datagram (a passed deadline wins over queued data) + :287-294 onRead
 G_Read(a) ==
@@ -258,56 +269,38 @@ G_Read(a) ==
   /\ LET r == Head(inT[a])
          fast == as[a].armed /\ IsDns(r.src) IN
        /\ as' = [as EXCEPT ![a].pc = "pack", ![a].cur = r, ![a].armed = FALSE, ![a].dl = IF fast THEN now ELSE @]
-       /\ conn' = conn \o <<COp(a, "rd", -1, "", r.src)>> \o (IF fast THEN <<COp(a, "dl", now, "fast", r.src)>> ELSE <<>>)
+       /\ conn' = [conn EXCEPT ![a] = @ \o <<COp("rd", -1, "", r.src)>> \o (IF fast THEN <<COp("dl", now, "fast", r.src)>> ELSE <<>>)]
        /\ inT' = [inT EXCEPT ![a] = Tail(@)]
-  /\ UNCHANGED <<nat, crashed, outC, mlog, nsalt>> /\ UNCHANGED GU
-
-\* :414-419 ReadFrom times out
-G_Timeout(a) ==
-  /\ as[a].pc = "read" /\ Expired(a)
-  /\ as' = [as EXCEPT ![a].pc = "remove"]
-  /\ UNCHANGED <<nat, inT, crashed, outC, mlog, conn, nsalt>> /\ UNCHANGED GU
+  /\ UNCHANGED <<nat, crashed, outC, mlogG>> /\ UNCHANGED GU
 
 \* :424-448 header from the TRUE sender address, Pack in place under the association's key with a fresh salt,
-\* WriteTo the client through the listener socket
-G_Pack(a) ==
+\* WriteTo the client through the listener socket; :459 AddPacketFromTarget
+G_Relay(a) ==
   /\ as[a].pc = "pack"
   /\ LET r == as[a].cur
          k == as[a].key
-         n == ReadLen(r.sz, k) IN
+         n == ReadLen(r.sz, k)
+         w == WireToClient(n, k, r.src)
+         st == IF ~PackFits(n, k) THEN "ERR_PACK" ELSE IF closing \/ w > MaxWire THEN "ERR_WRITE" ELSE "OK" IN
        IF Fam[r.src] = "zoned" /\ ZonedPanics
-         THEN /\ crashed' = TRUE      \* slice bounds out of range, no recover in this goroutine: process exits
+         THEN /\ crashed' = TRUE      \* slice bounds out of range; no recover in this goroutine: the process exits
               /\ as' = [as EXCEPT ![a].pc = "dead"]
-              /\ UNCHANGED <<outC, nsalt>>
+              /\ UNCHANGED <<outC, mlogG>>
          ELSE /\ crashed' = crashed
-              /\ IF ~PackFits(n, k) THEN
-                     /\ as' = [as EXCEPT ![a].pc = "reportT", ![a].n = n, ![a].status = "ERR_PACK", ![a].wire = 0]
-                     /\ UNCHANGED <<outC, nsalt>>
-                 ELSE IF closing \/ WireToClient(n, k, r.src) > MaxWire THEN
-                     /\ as' = [as EXCEPT ![a].pc = "reportT", ![a].n = n, ![a].status = "ERR_WRITE", ![a].wire = 0]
-                     /\ nsalt' = nsalt + 1      \* a salt was drawn, nothing left the proxy
-                     /\ UNCHANGED outC
-                 ELSE
-                     /\ nsalt' = nsalt + 1
-                     /\ outC' = Append(outC, [sid |-> r.id, a |-> a, c |-> as[a].c, key |-> k, salt |-> nsalt + 1,
-                                              hdr |-> r.src, sz |-> n, p |-> r.id, wire |-> WireToClient(n, k, r.src), t |-> now])
-                     /\ as' = [as EXCEPT ![a].pc = "reportT", ![a].n = n, ![a].status = "OK", ![a].wire = WireToClient(n, k, r.src)]
-  /\ UNCHANGED <<nat, inT, mlog, conn>> /\ UNCHANGED GU
+              /\ as' = [as EXCEPT ![a].pc = "read", ![a].cur = NoD, ![a].ns = IF st = "ERR_PACK" THEN @ ELSE @ + 1]
+              /\ outC' = IF st = "OK"
+                           THEN [outC EXCEPT ![a] = Append(@, [sid |-> r.id, a |-> a, c |-> as[a].c, key |-> k, salt |-> <<a, as[a].ns + 1>>,
+                                                             hdr |-> r.src, sz |-> n, p |-> r.id, wire |-> w, t |-> now])]
+                           ELSE outC
+              /\ mlogG' = [mlogG EXCEPT ![a] = Append(@, MEv("PktT", a, as[a].c, k, st, n, IF st = "OK" THEN w ELSE 0))]
+  /\ UNCHANGED <<nat, inT, conn>> /\ UNCHANGED GU
 
-\* :459 AddPacketFromTarget
-G_Report(a) ==
-  /\ as[a].pc = "reportT"
-  /\ mlog' = Append(mlog, [ev |-> "PktT", a |-> a, c |-> as[a].c, key |-> as[a].key, st |-> as[a].status,
-                           x |-> as[a].n, y |-> as[a].wire, t |-> now])
-  /\ as' = [as EXCEPT ![a].pc = "read", ![a].cur = NoD, ![a].n = 0, ![a].status = "", ![a].wire = 0]
-  /\ UNCHANGED <<nat, inT, crashed, outC, conn, nsalt>> /\ UNCHANGED GU
-
-\* :364 RemoveNatEntry
-G_Remove(a) ==
-  /\ as[a].pc = "remove"
-  /\ mlog' = Append(mlog, [ev |-> "NatRemove", a |-> a, c |-> as[a].c, key |-> as[a].key, st |-> "", x |-> 0, y |-> 0, t |-> now])
+\* :414-419 ReadFrom times out -> timedCopy returns; :364 RemoveNatEntry
+G_Expire(a) ==
+  /\ as[a].pc = "read" /\ Expired(a)
   /\ as' = [as EXCEPT ![a].pc = "del"]
-  /\ UNCHANGED <<nat, inT, crashed, outC, conn, nsalt>> /\ UNCHANGED GU
+  /\ mlogG' = [mlogG EXCEPT ![a] = Append(@, MEv("NatRemove", a, as[a].c, as[a].key, "", 0, 0))]
+  /\ UNCHANGED <<nat, inT, crashed, outC, conn>> /\ UNCHANGED GU
 
 \* :365, :346-356 del(clientAddr.String()) under Lock: removes WHATEVER entry is stored under the key
 G_Del(a) ==
@@ -315,22 +308,22 @@ G_Del(a) ==
   /\ LET e == nat[as[a].c] IN
        /\ nat' = [nat EXCEPT ![as[a].c] = 0]
        /\ as' = [as EXCEPT ![a].pc = IF e = 0 THEN "done" ELSE "close", ![a].victim = e]
-  /\ UNCHANGED <<inT, crashed, outC, mlog, conn, nsalt>> /\ UNCHANGED GU
+  /\ UNCHANGED <<inT, crashed, outC, mlogG, conn>> /\ UNCHANGED GU
 
 \* :366 pc.Close() on the entry that del returned
 G_Close(a) ==
   /\ as[a].pc = "close"
   /\ LET v == as[a].victim IN
        /\ as' = [as EXCEPT ![v].open = FALSE, ![a].pc = "done"]
-       /\ conn' = Append(conn, COp(v, "cl", -1, "", 0))
+       /\ conn' = [conn EXCEPT ![v] = Append(@, COp("cl", -1, "", 0))]
        /\ inT' = [inT EXCEPT ![v] = <<>>]
-  /\ UNCHANGED <<nat, crashed, outC, mlog, nsalt>> /\ UNCHANGED GU
+  /\ UNCHANGED <<nat, crashed, outC, mlogG>> /\ UNCHANGED GU
 
-AssocStep(a) == G_Read(a) \/ G_Timeout(a) \/ G_Pack(a) \/ G_Report(a) \/ G_Remove(a) \/ G_Del(a) \/ G_Close(a)
+AssocStep(a) == G_Read(a) \/ G_Relay(a) \/ G_Expire(a) \/ G_Del(a) \/ G_Close(a)
 
 (* ------------------------------- next-state ------------------------------- *)
-Env == \/ \E c \in Clients, k \in Keys \cup {0}, hdr \in BOOLEAN, dst \in Targets, cls \in CClasses : ClientSend(c, k, hdr, dst, cls)
-       \/ \E s \in Senders, a \in 1..MaxAssoc, cls \in RClasses : SenderSend(s, a, cls)
+Env == \/ \E x \in DgAlpha : ClientSend(x.c, x.k, x.hdr, x.dst, x.cls)
+       \/ \E x \in RpAlpha, a \in 1..MaxAssoc : SenderSend(x.s, a, x.cls)
        \/ CloseListener
        \/ \E d \in Ticks : Tick(d)
 
@@ -341,19 +334,23 @@ FairSpec == Spec /\ WF_vars(HandleStep) /\ \A a \in 1..MaxAssoc : WF_vars(AssocS
 \* liveness needs the listener to be closed eventually and the clock to advance (no state constraint)
 LiveSpec == FairSpec /\ WF_vars(CloseListener)
 
-(* ============================== property layer ============================== *)
-\* Everything below is stated over observation variables (and the clock) only.
-Range(s) == {s[i] : i \in 1..Len(s)}
-Adds == {m \in Range(mlog) : m.ev = "NatAdd"}
-Rems == {m \in Range(mlog) : m.ev = "NatRemove"}
+(* ============================== property layer ==============================
+   Everything in this section is stated over the observation variables (what clients, targets, the metrics sink
+   and - under virtual time - a fake outbound conn can see), the environment's own history and the clock.
+   UdpNatTrace evaluates the same predicates on observations recorded from the real code. *)
+AIds == 1..MaxAssoc
+Adds == {m \in Range(mlogH) : m.ev = "NatAdd"}
+Added(a) == \E m \in Adds : m.a = a
 AddOf(a) == CHOOSE m \in Adds : m.a = a
+RemsOf(a) == SelectSeq(mlogG[a], LAMBDA m : m.ev = "NatRemove")
 Dg(id) == sentC[id]
 Rp(id) == sentS[id]
 Valid(d) == d.k \in Keys /\ d.hdr /\ d.dst \in Allowed
+AllOutC == UNION {Range(outC[a]) : a \in AIds}
 
 \* ---- C03 ----
-\* forwarded => authenticated under the key that opened the association the datagram left through,
-\* destination as named by the client, payload identical
+\* forwarded => authenticated under the key that opened the association it left through, from that
+\* association's client, destination as named by the client, payload identical
 FwdAuthentic == \A e \in Range(outT) :
                   /\ e.did \in 1..Len(sentC)
                   /\ LET d == Dg(e.did) IN
@@ -361,32 +358,29 @@ FwdAuthentic == \A e \in Range(outT) :
                        /\ \E m \in Adds : m.a = e.a /\ m.key = d.k /\ m.c = d.c
 \* at most one copy of each client datagram is forwarded
 FwdOnce == \A i, j \in 1..Len(outT) : outT[i].did = outT[j].did => i = j
-\* replies: key of the association, fresh salt, header = the true sender, payload identical
-ReplyAuthentic == \A r \in Range(outC) :
+\* replies: key of the association, header = the true sender, payload identical, delivered once
+ReplyAuthentic == \A a \in AIds : \A r \in Range(outC[a]) :
                     /\ r.sid \in 1..Len(sentS)
                     /\ LET s == Rp(r.sid) IN
-                         /\ r.hdr = s.src /\ r.p = s.id
-                         /\ \E m \in Adds : m.a = s.a /\ m.key = r.key
-SaltsFresh == \A i, j \in 1..Len(outC) : outC[i].salt = outC[j].salt => i = j
-\* an association is created only by a datagram that authenticates and names an allowed destination
+                         /\ r.hdr = s.src /\ r.p = s.id /\ s.a = a
+                         /\ \E m \in Adds : m.a = a /\ m.key = r.key
+ReplyOnce == \A r1, r2 \in AllOutC : r1.sid = r2.sid => r1 = r2
+SaltsFresh == \A r1, r2 \in AllOutC : r1.salt = r2.salt => r1 = r2
+\* an association is created only by a datagram that authenticates (under the reported key) and names an
+\* allowed destination; datagrams that authenticate under no key create nothing and send nothing
 CreateOnlyValid == \A m \in Adds : m.x \in 1..Len(sentC) /\ Valid(Dg(m.x)) /\ Dg(m.x).k = m.key /\ Dg(m.x).c = m.c
+CreateOnce == \A m1, m2 \in Adds : (m1.a = m2.a \/ m1.x = m2.x) => m1 = m2
 
 \* ---- C04 ----
-\* a datagram of client c leaves through the socket of c's association; sockets are never shared
+\* one source socket per association, never shared; it carries only its client's datagrams
 SrcPrivate == \A e1, e2 \in Range(outT) : (e1.sock = e2.sock) <=> (e1.a = e2.a)
-SrcStable  == \A e \in Range(outT) : \E m \in Adds : m.a = e.a /\ m.c = Dg(e.did).c
 \* whatever arrives on an association's socket is delivered to its owner and to nobody else
-OwnerOnly == \A r \in Range(outC) : \E m \in Adds : m.a = Rp(r.sid).a /\ m.c = r.c
-\* at most one live association per client: adds for one client are separated by a removal
-OnePerClient == \A i, j \in 1..Len(mlog) :
-                  (i < j /\ mlog[i].ev = "NatAdd" /\ mlog[j].ev = "NatAdd" /\ mlog[i].c = mlog[j].c)
-                    => \E x \in 1..Len(mlog) : x < j /\ mlog[x].ev = "NatRemove" /\ mlog[x].a = mlog[i].a
+OwnerOnly == \A a \in AIds : \A r \in Range(outC[a]) : \E m \in Adds : m.a = a /\ m.c = r.c
+\* at most one live association per client: when one is added, every earlier one of that client has been removed
+OnePerClient == \A m \in Adds : m.y = 0
 
 \* ---- C14 ---- (conn is observable on fake conns under virtual time; on real sockets it is empty and the
 \* clock is the harness's measured time; Slack = 0 in the model)
-ConnOf(a) == SelectSeq(conn, LAMBDA x : x.a = a)
-Dls == SelectSeq(conn, LAMBDA x : x.op = "dl")
-Cls == SelectSeq(conn, LAMBDA x : x.op = "cl")
 WritesOf(a) == SelectSeq(outT, LAMBDA e : e.a = a)
 TimeoutOf(e) == IF IsDns(e.dst) THEN DNST ELSE T
 \* the promise made to the client: every datagram forwarded while the association was still within its promise
@@ -397,84 +391,96 @@ Prom(ws, i, p) == IF i > Len(ws) THEN p
                   ELSE Prom(ws, i + 1, IF p = -1 \/ ws[i].t + Slack < p THEN Max(p, ws[i].t + TimeoutOf(ws[i])) ELSE p)
 Promise(a) == Prom(WritesOf(a), 1, -1)
 \* the fast close may have fired: the first datagram was a DNS query and a port-53 sender has answered
-MayFastClose(a) == /\ Len(WritesOf(a)) >= 1 /\ IsDns(WritesOf(a)[1].dst)
-                   /\ \E r \in Range(sentS) : r.a = a /\ IsDns(r.src)
+\* (the latch is armed from creation, udp.go:261, so a port-53 datagram that reaches the socket before the first
+\* WriteTo - a window of microseconds in which nobody knows the port - also fires it: r.nw = 0)
+MayFastClose(a) == \E r \in Range(sentS) : /\ r.a = a /\ IsDns(r.src)
+                                            /\ (r.nw = 0 \/ (Len(WritesOf(a)) >= 1 /\ IsDns(WritesOf(a)[1].dst)))
 Excused(a) == MayFastClose(a) \/ closing
+DlsOf(a) == SelectSeq(conn[a], LAMBDA x : x.op = "dl")
+ClsOf(a) == SelectSeq(conn[a], LAMBDA x : x.op = "cl")
 \* the deadline never moves earlier (except by the fast close and by shutdown, which set it to "now")
-DeadlineMonotone == \A i, j \in 1..Len(Dls) :
-                      (i < j /\ Dls[i].a = Dls[j].a /\ Dls[j].why = "write" /\ Dls[i].why = "write") => Dls[j].dl >= Dls[i].dl
+DeadlineMonotone == \A a \in AIds : LET ds == DlsOf(a) IN
+                      \A i, j \in 1..Len(ds) : (i < j /\ ds[j].why = "write" /\ ds[i].why = "write") => ds[j].dl >= ds[i].dl
 \* every forwarded datagram is preceded by a deadline at least as late as promised
-WriteExtends == \A a \in 1..MaxAssoc : LET co == ConnOf(a) IN
+WriteExtends == \A a \in AIds : LET co == conn[a] IN
                   \A i \in 1..Len(co) : co[i].op = "wr" =>
                     \E j \in 1..(i - 1) : co[j].op = "dl" /\ co[j].why = "write"
                                             /\ co[j].dl >= co[i].t + (IF IsDns(co[i].x) THEN DNST ELSE T)
 \* removal is never reported, and the socket never closed, before the promise has run out
-NoEarlyRemoval == \A m \in Rems : Excused(m.a) \/ m.t >= Promise(m.a)
-NoEarlyClose == \A x \in Range(Cls) : Excused(x.a) \/ x.t >= Promise(x.a)
-RemoveOnce == \A i, j \in 1..Len(mlog) : (mlog[i].ev = "NatRemove" /\ mlog[j].ev = "NatRemove" /\ mlog[i].a = mlog[j].a) => i = j
-CloseOnce == \A i, j \in 1..Len(Cls) : Cls[i].a = Cls[j].a => i = j
+NoEarlyRemoval == \A a \in AIds : \A m \in Range(RemsOf(a)) : Excused(a) \/ m.t >= Promise(a)
+NoEarlyClose == \A a \in AIds : \A x \in Range(ClsOf(a)) : Excused(a) \/ x.t >= Promise(a)
+RemoveOnce == \A a \in AIds : Len(RemsOf(a)) <= 1
+CloseOnce == \A a \in AIds : Len(ClsOf(a)) <= 1
 \* fast close: only on a reply from port 53, only when exactly one datagram (a DNS query) had been written
-\* and nothing had been read before; and then it does fire (deadline := now)
+\* and nothing had been read before; and in that situation it does fire (deadline := now)
 NWr(co, i) == Cardinality({j \in 1..(i - 1) : co[j].op = "wr"})
 NRd(co, i) == Cardinality({j \in 1..(i - 1) : co[j].op = "rd"})
-FastCloseRule == \A a \in 1..MaxAssoc : LET co == ConnOf(a) IN
+FastCloseRule == \A a \in AIds : LET co == conn[a] IN
                    \A i \in 1..Len(co) :
                      /\ (co[i].op = "dl" /\ co[i].why = "fast") =>
                           /\ co[i].dl = co[i].t /\ i > 1 /\ co[i - 1].op = "rd" /\ IsDns(co[i - 1].x)
-                          /\ \E j \in 1..(i - 1) : co[j].op = "wr" /\ IsDns(co[j].x) /\ NWr(co, j) = 0
+                          /\ NRd(co, i - 1) = 0
+                          /\ NWr(co, i) <= 1 /\ \A j \in 1..(i - 1) : co[j].op = "wr" => IsDns(co[j].x)
                      /\ (co[i].op = "rd" /\ IsDns(co[i].x) /\ NRd(co, i) = 0 /\ NWr(co, i) = 1
                           /\ ~(h.pc = "send" /\ h.a = a)      \* no datagram in flight to this association
                           /\ (\E j \in 1..(i - 1) : co[j].op = "wr" /\ IsDns(co[j].x))
                           /\ (\A j \in (i + 1)..Len(co) : co[j].op # "wr")) =>     \* no second datagram racing with it
                           i < Len(co) /\ co[i + 1].op = "dl" /\ co[i + 1].why = "fast"
-\* after a fast close with no racing datagram the association is torn down at that very instant (virtual time)
 
 \* ---- C16 ----
-MOf(a, ev) == SelectSeq(mlog, LAMBDA m : m.a = a /\ m.ev = ev)
-\* NatAdd first, once; nothing from the association's own goroutine after NatRemove
-MetricsLanguage == \A i \in 1..Len(mlog) : mlog[i].a # 0 =>
-                     /\ mlog[i].ev = "NatAdd" => \A j \in 1..Len(mlog) : (mlog[j].a = mlog[i].a /\ j # i) => (j > i /\ mlog[j].ev # "NatAdd")
-                     /\ mlog[i].ev # "NatAdd" => \E j \in 1..(i - 1) : mlog[j].ev = "NatAdd" /\ mlog[j].a = mlog[i].a
-                     /\ mlog[i].ev = "PktT" => \A j \in 1..(i - 1) : ~(mlog[j].ev = "NatRemove" /\ mlog[j].a = mlog[i].a)
-\* each forwarded datagram is reported OK with the sizes seen on the wire; each non-OK report moved nothing
-PktCSound == \A a \in 1..MaxAssoc :
-               LET ok == SelectSeq(MOf(a, "PktC"), LAMBDA m : m.st = "OK")
-                   fw == SelectSeq(outT, LAMBDA e : e.a = a) IN
-                 /\ Len(ok) <= Len(fw) /\ Len(fw) <= Len(ok) + 1
-                 /\ \A i \in 1..Len(ok) : ok[i].y = fw[i].sz /\ ok[i].x = WireFromClient(Dg(fw[i].did))
-                 /\ \A m \in Range(MOf(a, "PktC")) : m.st # "OK" => m.y = 0
-PktTSound == \A a \in 1..MaxAssoc :
-               LET ok == SelectSeq(MOf(a, "PktT"), LAMBDA m : m.st = "OK")
-                   dl == SelectSeq(outC, LAMBDA r : r.a = a) IN
-                 /\ Len(ok) <= Len(dl) /\ Len(dl) <= Len(ok) + 1
-                 /\ \A i \in 1..Len(ok) : ok[i].x = dl[i].sz /\ ok[i].y = dl[i].wire
-                 /\ \A m \in Range(MOf(a, "PktT")) : m.st # "OK" => m.y = 0
+PktCOf(a) == SelectSeq(mlogH, LAMBDA m : m.ev = "PktC" /\ m.a = a)
+PktTOf(a) == SelectSeq(mlogG[a], LAMBDA m : m.ev = "PktT")
+\* NatAdd (with the authenticating key) before anything else of the association, once; removal at most once and
+\* nothing from the association's own goroutine after it; metrics only for associations that were added
+MetricsLanguage ==
+  /\ \A i \in 1..Len(mlogH) : mlogH[i].ev = "PktC" => \E j \in 1..(i - 1) : mlogH[j].ev = "NatAdd" /\ mlogH[j].a = mlogH[i].a
+  /\ \A a \in AIds : /\ mlogG[a] # <<>> => Added(a)
+                     /\ \A i \in 1..Len(mlogG[a]) : mlogG[a][i].ev = "NatRemove" => i = Len(mlogG[a])
+\* each forwarded datagram is reported OK with the sizes seen on the wire, in order; a non-OK report moved nothing
+PktCSound == \A a \in AIds :
+               LET ok == SelectSeq(PktCOf(a), LAMBDA m : m.st = "OK")
+                   fw == WritesOf(a) IN
+                 /\ Len(ok) = Len(fw)
+                 /\ \A i \in 1..Len(ok) : ok[i].y = fw[i].sz /\ ok[i].x = WireFromClient(Dg(fw[i].did)) /\ ok[i].key = AddOf(a).key
+                 /\ \A m \in Range(PktCOf(a)) : m.st # "OK" => m.y = 0
+PktTSound == \A a \in AIds :
+               LET ok == SelectSeq(PktTOf(a), LAMBDA m : m.st = "OK")
+                   dl == outC[a] IN
+                 /\ Len(ok) = Len(dl)
+                 /\ \A i \in 1..Len(ok) : ok[i].x = dl[i].sz /\ ok[i].y = dl[i].wire /\ ok[i].key = AddOf(a).key
+                 /\ \A m \in Range(PktTOf(a)) : m.st # "OK" => m.y = 0
+\* every datagram read from an association's socket is reported exactly once (in order) with the size read
+PktTComplete == \A a \in AIds :
+                  LET rds == SelectSeq(conn[a], LAMBDA x : x.op = "rd") IN
+                    Len(PktTOf(a)) <= Len(rds) /\ Len(rds) <= Len(PktTOf(a)) + 1
 
 \* ---- C18 ----
 NoCrash == ~crashed
 Quiescent == /\ h.pc = "returned"
-             /\ \A a \in 1..MaxAssoc : as[a].st = "used" => as[a].pc = "done"
+             /\ \A a \in AIds : as[a].st = "used" => as[a].pc = "done"
 \* when everything has ended nothing is left: no entry, no open socket, one removal and one close per association
 AllReclaimed == Quiescent =>
                   /\ \A c \in Clients : nat[c] = 0
-                  /\ \A a \in 1..MaxAssoc : as[a].st = "used" => ~as[a].open
-                  /\ \A m \in Adds : Cardinality({x \in Rems : x.a = m.a}) = 1 /\ \E x \in Range(Cls) : x.a = m.a
-\* a datagram that fails (no association involved) leaves the table and every association untouched
-FailureIsolated == [][(h.pc = "report" /\ h.a = 0 /\ h'.pc = "read") => UNCHANGED <<nat, as, outT, outC>>]_vars
+                  /\ \A a \in AIds : as[a].st = "used" => ~as[a].open
+                  /\ \A m \in Adds : Len(RemsOf(m.a)) = 1 /\ Len(ClsOf(m.a)) = 1
+\* a datagram that fails leaves the table, every association and everything sent so far untouched
+FailureIsolated == [][(h.pc \in {"trial", "decrypt"} /\ h'.pc = "read") => UNCHANGED <<nat, as, outT, outC>>]_vars
+\* every step of the Handle loop has an outcome: it is never stuck with a datagram in hand
+HandleTotal == (h.pc \notin {"read", "returned"}) => ENABLED HandleStep
 
 \* mechanism sanity (documentation; failures on a trace would be drift)
-TypeOK == /\ h.pc \in {"read", "lookup", "trial", "decrypt", "validate", "open", "latch", "send", "report", "returned"}
-          /\ \A a \in 1..MaxAssoc : as[a].pc \in {"none", "read", "pack", "reportT", "remove", "del", "close", "done", "dead"}
+TypeOK == /\ h.pc \in {"read", "trial", "decrypt", "open", "latch", "send", "returned"}
+          /\ \A a \in AIds : as[a].pc \in {"none", "read", "pack", "del", "close", "done", "dead"}
           /\ \A c \in Clients : nat[c] \in 0..nas
 MechNat == \A c \in Clients : nat[c] # 0 => as[nat[c]].c = c /\ as[nat[c]].st = "used"
 \* usable while promised: entry present, socket open, goroutine still copying
 Usable == \A m \in Adds : (~Excused(m.a) /\ now < Promise(m.a)) =>
-            /\ nat[m.c] = m.a /\ as[m.a].open /\ as[m.a].pc \in {"read", "pack", "reportT"}
+            /\ nat[m.c] = m.a /\ as[m.a].open /\ as[m.a].pc \in {"read", "pack"}
 
 \* ---- liveness (LiveSpec only) ----
 Overdue(a) == as[a].st = "used" /\ as[a].pc = "read" /\ Expired(a)
-ExpireHappens == \A a \in 1..MaxAssoc : Overdue(a) ~> (as[a].pc = "done" \/ crashed)
-ShutdownReclaims == closing ~> ((\A c \in Clients : nat[c] = 0) /\ (\A a \in 1..MaxAssoc : ~as[a].open))
+ExpireHappens == \A a \in AIds : Overdue(a) ~> (as[a].pc = "done" \/ crashed)
+ShutdownReclaims == closing ~> ((\A c \in Clients : nat[c] = 0) /\ (\A a \in AIds : ~as[a].open))
 
 View == <<mech, obs>>
 ===============================================================================
